@@ -15,6 +15,9 @@ for sid in ids:
     pid = meta["property"]
     if pid not in claimed:
         print(f"{sid}: property {pid} not claimed yet, skipped"); continue
+    if subprocess.run(["git", "-C", "/repo", "apply", "--check", os.path.join(d, "patch.diff")], capture_output=True).returncode != 0:
+        print(f"{sid}: patch does not apply to the current /repo HEAD ({meta.get('applies_to', 'unknown reason')}); kept result: {results.get(sid, {}).get('verdict')}")
+        continue
     # the evidence file must keep describing the unchanged tree: save it, restore it afterwards
     evf = os.path.join(ROOT, "evidence", pid + ".json")
     saved_ev = open(evf).read() if os.path.exists(evf) else None
